@@ -61,6 +61,8 @@ func VerifH_c07_expired_is_absent() {
 		switch s {
 		case "$K":
 			args[i] = "k"
+		case "$F":
+			args[i] = []string{"1.5", "inf", "nan"}[vChoice("f", 3)]
 		case "$S":
 			args[i] = vStringN("s", 1)
 		case "$I":
